@@ -223,6 +223,7 @@ class SymDomain(BaseDomain):
         self.sparse = self._make_sparse()
         self.scipy_linalg = Namespace("scipy.linalg", qr=self.la_qr)
         self.events = []
+        self._cur_node = None
 
     # ---------------------------------------------------------------- modules
     def ext_module(self, name):
@@ -294,6 +295,9 @@ class SymDomain(BaseDomain):
             count_nonzero=d.np_count_nonzero,
             triu=lambda a, k=0: d._tri(a, k, True), tril=lambda a, k=0: d._tri(a, k, False),
             ix_=np.ix_, prod_=None,
+            sign=d.np_sign, diff=d.np_diff, exp=lambda v: d._elem_fn("exp", v), log=lambda v: d._elem_fn("log", v),
+            triu_indices=lambda n, k=0, m=None: np.triu_indices(n, k, m), tril_indices=lambda n, k=0, m=None: np.tril_indices(n, k, m),
+            diag_indices=lambda n, ndim=2: np.diag_indices(n, ndim),
             linalg=Namespace("np.linalg", norm=d.la_norm, svd=d.la_svd, qr=d.la_qr_np, eig=d.la_eig, eigh=d.la_eigh,
                              eigvals=d.la_eigvals, eigvalsh=d.la_eigvals, pinv=d.la_pinv, inv=d.la_pinv,
                              LinAlgError=None),
@@ -533,35 +537,39 @@ class SymDomain(BaseDomain):
 
     def np_any(self, a, **k):
         a = wrap(a)
-        res = False
+        unknown = False
         for v in a.reshape(-1):
             if v is True:
                 return True
             if is_unknown(v):
-                res = v
+                unknown = True
             elif v is not False:
                 t = self.truth(v)
                 if t is True:
                     return True
                 if is_unknown(t):
-                    res = t
-        return res
+                    unknown = True
+        if unknown:
+            return UNKNOWN(("any", [v for v in a.reshape(-1)]))
+        return False
 
     def np_all(self, a, **k):
         a = wrap(a)
-        res = True
+        unknown = False
         for v in a.reshape(-1):
             if v is False:
                 return False
             if is_unknown(v):
-                res = v
+                unknown = True
             elif v is not True:
                 t = self.truth(v)
                 if t is False:
                     return False
                 if is_unknown(t):
-                    res = t
-        return res
+                    unknown = True
+        if unknown:
+            return UNKNOWN(("all", [v for v in a.reshape(-1)]))
+        return True
 
     def np_isscalar(self, v):
         return not isinstance(v, (SymArr, list, tuple, Instance)) and (is_number(v) or isinstance(v, (Poly, SQ, SC, str)))
@@ -577,6 +585,44 @@ class SymDomain(BaseDomain):
             v = P(af[i])
             of[i] = Poly.const(min(max(v.const_value(), lo), hi)) if v.is_const() else Poly.atom(("clip", v.key(), lo, hi))
         return out
+
+    def np_sign(self, v):
+        def one(x):
+            x = P(x)
+            if x.is_const():
+                c = x.const_value()
+                return Poly.const(1 if c > 0 else (-1 if c < 0 else 0))
+            from .scenario import is_nonneg
+            if is_nonneg(x):
+                return Poly.atom(("sign+", x.key()))     # 1 unless x == 0
+            return Poly.atom(("sign", x.key()))
+        return self._map(one, v)
+
+    def _elem_fn(self, name, v):
+        def one(x):
+            x = P(x)
+            if x.is_const() and name == "exp" and x.is_zero():
+                return Poly.const(1)
+            return Poly.atom((name, x.key()))
+        return self._map(one, v)
+
+    def _map(self, f, v):
+        if isinstance(v, SymArr):
+            out = mk(v.shape, "real")
+            of, af = out.reshape(-1), v.reshape(-1)
+            for i in range(af.size):
+                of[i] = f(af[i])
+            return out
+        if isinstance(v, (list, tuple)):
+            return self._map(f, self.np_array(v))
+        return f(v)
+
+    def np_diff(self, a, n=1, axis=-1):
+        a = wrap(a)
+        r = np.asarray(a, dtype=object)
+        for _ in range(n):
+            r = np.diff(r, axis=axis)
+        return SymArr(r, a.kind)
 
     def np_where(self, cond, a=None, b=None):
         raise Unsupported("np.where on symbolic data")
@@ -978,6 +1024,7 @@ class SymDomain(BaseDomain):
         raise Unsupported(f"unknown-external ndarray.{attr}" + (f" at {interp.where(node)}" if node is not None and interp else ""))
 
     def getitem(self, interp, obj, idx, node):
+        self._cur_node = node
         if isinstance(obj, SymArr):
             idx = self._conv_index(idx)
             r = np.asarray(obj, dtype=object)[idx]
@@ -1004,7 +1051,19 @@ class SymDomain(BaseDomain):
                     return int(i.const_value())
                 raise Unsupported("symbolic index")
             if isinstance(i, SymArr):
-                return np.asarray([int(P(v).const_value()) for v in i.reshape(-1)]).reshape(i.shape)
+                flat = list(i.reshape(-1))
+                if flat and all(isinstance(v, (bool, np.bool_)) or is_unknown(v) for v in flat):
+                    # boolean mask whose entries may depend on data: every entry is decided through the interpreter's
+                    # chooser (explicit, default-generic or forced in an alternative scenario)
+                    dec = []
+                    for v in flat:
+                        if is_unknown(v):
+                            if self._interp is None:
+                                raise Unsupported("data dependent boolean mask")
+                            v = self._interp.decide(self._cur_node, v)
+                        dec.append(bool(v))
+                    return np.asarray(dec, dtype=bool).reshape(i.shape)
+                return np.asarray([int(P(v).const_value()) for v in flat]).reshape(i.shape)
             if isinstance(i, slice):
                 return slice(one(i.start) if i.start is not None else None, one(i.stop) if i.stop is not None else None,
                              one(i.step) if i.step is not None else None)
@@ -1016,6 +1075,7 @@ class SymDomain(BaseDomain):
         return one(idx)
 
     def setitem(self, interp, obj, idx, v, node):
+        self._cur_node = node
         if isinstance(obj, SymArr):
             idx = self._conv_index(idx)
             base = np.asarray(obj, dtype=object)
